@@ -4,6 +4,11 @@ import json, os
 HERE = os.path.dirname(os.path.dirname(os.path.abspath(__file__)))
 ALL = ["C%02d" % i for i in range(1, 21)]
 CHECKS = {
+ "C03": dict(
+   technique="inputs enumerated by TLC from FortranScopes.tla (all prefixes of valid programs; all sequences of the robust statement alphabet) and Preproc.tla (directive files with open conditionals), plus seeded mutations; each text indexed by a live server in killable workers; recorded add_scope/end_scope traces validated by TLC against FortranScopesTrace.tla",
+   text="Every text must be indexed without exception within the CPU bound, leave no 'parsing failed' message, answer documentSymbol/definition/hover/completion/diagnostics without internal error, and its scope push/pop trace must satisfy the stack discipline (LIFO, first line <= last line, nothing left open at end of file).",
+   note="Trusted: TLC, renderer, the add_scope/end_scope wrapper installed from outside. Statement-level and one-character-mutation coverage only; arbitrary byte strings are not enumerated.",
+   design="4/C03"),
  "C04": dict(
    technique="TLA+ spec FortranScopes.tla (block grammar as guarded actions; well-nestedness invariants model-checked); every complete program TLC enumerates/simulates is rendered with seeded spacing and its documentSymbol / workspace/symbol answers are compared with the spec's closed-scope set",
    text="All complete valid programs of <=6 (quick) / <=8 (thorough) statements over units, procedures, CONTAINS nesting, types with components/bindings, interfaces and six block constructs, plus simulated programs of up to 30 statements: each required entity exactly once with admissible kind, container and first/last line; workspace/symbol equals the substring-filtered set of units and module members, sorted.",
